@@ -20,9 +20,6 @@ Ok   == <<"ok">>
 Expected(e) ==
   IF e.g = "div" THEN DivFromObserved(e.a, e.b, e.o.dq) ELSE Expect(e.g, e.a, e.b, e.n)
 
-RECURSIVE SetToSeq(_)
-SetToSeq(S) == IF S = {} THEN <<>> ELSE LET x == CHOOSE y \in S : TRUE IN <<x>> \o SetToSeq(S \ {x})
-
 Verdict(e) ==
   LET x   == Expected(e)
       bad == { f \in DOMAIN x : (f \notin DOMAIN e.o) \/ ~Match(x[f], e.o[f]) }
